@@ -917,6 +917,14 @@ func TestCheck(t *testing.T) {
 			})
 		case "batch":
 			replayBatch(col, d)
+		case "unclefork":
+			c2 := &collector{}
+			partUncleLimitAtFork(run, c2)
+			for _, v := range c2.viols {
+				if v.CaseID == d.CaseID {
+					col.viols = append(col.viols, v)
+				}
+			}
 		case "sched":
 			if schedReplay(d) {
 				run.Violate(ev.Violation{Scenario: d.Scenario, Oracle: d.Oracle, CaseID: d.CaseID, Detail: d.Detail})
@@ -944,6 +952,7 @@ func TestCheck(t *testing.T) {
 		defer tm.Stop()
 		synctest.Test(t, func(t *testing.T) { partLattice(run, col, over.Load) })
 	})
+	timed("uncle_limit_at_fork", func() { partUncleLimitAtFork(run, col) })
 	timed("batch_schedules", func() { partSched(run) })
 	run.Set("part_seconds", secs)
 	finish()
